@@ -12,6 +12,7 @@ CONSTANTS
   AllowRst = TRUE
   AllowTClose = TRUE
   AllowCRst = TRUE
+  Planned = FALSE
   Timeout = 2
   MaxNow = 3
   DrainMode = "raw"
